@@ -48,6 +48,10 @@ func RunContext(ctx context.Context, env *env.Env, options *Options, stmt ast.St
 	if runInfo.err == ErrReturn {
 		runInfo.err = nil
 	}
+	if !runInfo.rv.IsValid() || !runInfo.rv.CanInterface() {
+		// this runs outside of recoverFunc, Interface would panic into the caller
+		return nil, runInfo.err
+	}
 	return runInfo.rv.Interface(), runInfo.err
 }
 
